@@ -218,7 +218,72 @@ def run_model(runner: str, lines: list[str], chunk: int = 4000, procs: int = 8) 
     for a in flat:
         if a.startswith("!"):
             raise RuntimeError("model runner rejected a line: " + a)
+    _xs_record(runner, lines, flat)
     return flat
+
+
+# --------------------------------------------------------------------------
+# cross-check of extraction: a deterministic sample of the wire lines answered by the extracted OCaml
+# runner is re-evaluated inside Coq (vm_compute on <Name>Run.run_line) and must give the same answers
+# --------------------------------------------------------------------------
+_XS: dict[str, list[tuple[str, str]]] = {}
+_XS_SEEN: dict[str, int] = {}
+_XS_PID = os.getpid()
+
+
+def _xs_record(runner, lines, answers):
+    if os.getpid() != _XS_PID:          # forked workers: their samples would be lost anyway
+        return
+    seen = _XS_SEEN.get(runner, 0)
+    store = _XS.setdefault(runner, [])
+    for l, a in zip(lines, answers):
+        seen += 1
+        if len(l) < 3000 and len(a) < 3000 and '"' not in l and '"' not in a and (seen <= 60 or seen % 53 == 0):
+            if len(store) < 6000:
+                store.append((l, a))
+    _XS_SEEN[runner] = seen
+
+
+def _runner_module(runner: str) -> str | None:
+    for f in sorted((COQ / "extraction").glob("Extract*.v")):
+        m = re.search(r'Extraction\s+"\.\./ocaml/gen/%s\.ml"\s+([A-Za-z0-9_]+)\.run_line' % re.escape(runner), f.read_text())
+        if m:
+            return m.group(1)
+    return None
+
+
+def extraction_crosscheck(tier: str) -> tuple[dict, list[dict]]:
+    """returns (summary for the evidence, list of mismatches)."""
+    summary, bad = {}, []
+    n = 40 if tier == "quick" else 400
+    for runner, store in sorted(_XS.items()):
+        mod = _runner_module(runner)
+        if not mod or not store:
+            continue
+        step = max(1, len(store) // n)
+        pick = store[::step][:n]
+        tmp = tempfile.mkdtemp(prefix="vxs_")
+        try:
+            src = ["From Coq Require Import String.", f"From Rbacx Require Import {mod}.",
+                   "Local Open Scope string_scope."]
+            for l, a in pick:
+                src.append('Eval vm_compute in (String.eqb (%s.run_line "%s") "%s").' % (mod, l, a))
+            (Path(tmp) / "xcases.v").write_text("\n".join(src) + "\n")
+            r = subprocess.run(["coqc", "-Q", str(COQ / "theories"), "Rbacx", "xcases.v"], cwd=tmp,
+                               capture_output=True, text=True, timeout=900)
+            verdicts = re.findall(r"=\s*(true|false)\s*:\s*bool", r.stdout)
+            nbad = [i for i, v in enumerate(verdicts) if v != "true"]
+            summary[runner] = {"module": mod, "sampled": len(pick), "evaluated_in_coq": len(verdicts),
+                               "mismatches": len(nbad), "coqc_rc": r.returncode}
+            if r.returncode != 0 or len(verdicts) != len(pick) or nbad:
+                bad.append({"runner": runner, "module": mod, "coqc_rc": r.returncode, "stderr": r.stderr[-600:],
+                            "line": pick[nbad[0]][0] if nbad else None,
+                            "ocaml_answer": pick[nbad[0]][1] if nbad else None})
+        except subprocess.TimeoutExpired:
+            summary[runner] = {"module": mod, "sampled": len(pick), "timeout": True}
+        finally:
+            shutil.rmtree(tmp, ignore_errors=True)
+    return summary, bad
 
 
 def model_call(entry: str, *args) -> str:
@@ -447,6 +512,17 @@ class Check:
     # ---- finish
     def finish(self) -> int:
         rc = 0
+        try:
+            xs, xbad = extraction_crosscheck(self.tier)
+        except Exception as e:  # the cross-check itself must never hide a verdict
+            xs, xbad = {"error": repr(e)[:300]}, []
+        if xs:
+            self.extra.setdefault("extraction_crosscheck_vm_compute", xs)
+        for b in xbad:
+            self.corr_break("extracted OCaml runner vs vm_compute of %s.run_line inside Coq (trusted component)"
+                            % b["module"], {"line": b["line"], "coqc_rc": b["coqc_rc"], "stderr": b["stderr"]},
+                            impl=None, model=b["ocaml_answer"],
+                            theorems=[f"all of props/{self.prop}.v (the runner no longer computes the proved model)"])
         (VERIF / "replays").mkdir(exist_ok=True)
         (VERIF / "evidence").mkdir(exist_ok=True)
         lines = []
